@@ -301,6 +301,7 @@ def pEdit : P Edit
   | "addtrigs" :: r => (pCounted pTrigger r).map fun (ts, r) => (.addTriggers ts, r)
   | "upsert" :: r => (pUnit r).map fun (u, r) => (.upsertUnit u, r)
   | "addwavs" :: r => (pCounted pHex r).map fun (ps, r) => (.addWavs ps, r)
+  | "setuprp" :: r => (pCounted pCuwp r).map fun (cs, r) => (.replaceUprp cs, r)
   | "reload" :: r => some (.reload, r)
   | _ => none
 
